@@ -510,6 +510,8 @@ fn spawn_async_ao_list_in_task'''),
         ('quoted-piece-starts-new-field', 'brush-core/src/expansion.rs', 'ExpansionPiece::Unsplittable(_) => current_field.0.push(piece),', 'ExpansionPiece::Unsplittable(_) => fields.push(WordField(vec![piece])),'),
     ],
     'U13': [
+        ('new-variable-goes-to-the-innermost-scope-of-any-kind', 'brush-core/src/env.rs', "            if *scope_type == target_scope {\n                let prev_var = map.set(name, var);", "            if *scope_type == target_scope || true {\n                let prev_var = map.set(name, var);"),
+        ('allexport-ignored-for-new-variables', 'brush-core/src/env.rs', "        if self.export_variables_on_modification {\n            var.export();\n        }\n\n        for (scope_type, map) in self.scopes.iter_mut().rev() {", "        for (scope_type, map) in self.scopes.iter_mut().rev() {"),
         ('second-unset-of-a-local-drops-the-placeholder', 'brush-core/src/env.rs', "            if unset_result.is_some() {\n                // If we end up finding a local in the top-most local frame, then we replace\n                // it with a placeholder.\n                if matches!(scope_type, EnvironmentScope::Local) && local_count == 1 {", "            if let Some(removed) = &unset_result {\n                if matches!(scope_type, EnvironmentScope::Local) && local_count == 1 && removed.is_readonly() {"),
         ('placeholder-for-any-local-frame', 'brush-core/src/env.rs', "if matches!(scope_type, EnvironmentScope::Local) && local_count == 1 {", "if matches!(scope_type, EnvironmentScope::Local) {"),
         ('unset-continues-past-the-innermost-hit', 'brush-core/src/env.rs', "                return Ok(unset_result);\n            }\n        }\n\n        Ok(None)", "            }\n        }\n\n        Ok(None)"),
